@@ -54,7 +54,7 @@ def main():
                 send(res)
                 send({"done": True})
             elif cmd == "shrink":
-                res = mod.shrink_case(msg["case"], msg["klass"], cfg)
+                res = mod.shrink_case(msg["case"], msg["klass"], dict(cfg, want_verdict=msg.get("verdict", "violation")))
                 send({"case": res})
                 send({"done": True})
             elif cmd == "call":
